@@ -271,7 +271,11 @@ where
                     (None, None, vec![])
                 }
             }
-            SpacesArgs::SpaceUpdate { .. } => unimplemented!(),
+            // Rotating the entropy of a space is not implemented yet. A remote peer can still send
+            // us such a message: report it as an error instead of panicking.
+            SpacesArgs::SpaceUpdate { .. } => {
+                return Err(ManagerError::UnsupportedMessage(message.hash()));
+            }
             // Received encrypted application data for a space.
             SpacesArgs::Application { space_id, .. } => {
                 let Some(space) = self.space(*space_id).await? else {
@@ -738,6 +742,9 @@ where
 
     #[error("unexpected message variant, expected auth {0}")]
     IncorrectMessageVariant(Hash),
+
+    #[error("received message with id {0} of a type which is not supported yet")]
+    UnsupportedMessage(Hash),
 
     #[error(transparent)]
     Rng(#[from] RngError),
